@@ -1,11 +1,15 @@
 """This module implements the MachineModel class."""
 from __future__ import annotations
 
+import itertools as it
 from collections.abc import Sequence
 from typing import TYPE_CHECKING
 
 from bqskit.compiler.gateset import GateSet
 from bqskit.compiler.gateset import GateSetLike
+from bqskit.ir.gates.barrier import BarrierPlaceholder
+from bqskit.ir.gates.measure import MeasurementPlaceholder
+from bqskit.ir.gates.reset import Reset
 from bqskit.ir.location import CircuitLocation
 from bqskit.qis.graph import CouplingGraph
 from bqskit.qis.graph import CouplingGraphLike
@@ -105,15 +109,23 @@ class MachineModel:
         if circuit.num_qudits > self.num_qudits:
             return False
 
-        if any(g not in self.gate_set for g in circuit.gate_set):
+        # Barriers, measurements, and resets are not gates of the machine
+        placeholders = (BarrierPlaceholder, MeasurementPlaceholder, Reset)
+
+        if any(
+            g not in self.gate_set and not isinstance(g, placeholders)
+            for g in circuit.gate_set
+        ):
             return False
 
         if placement is None:
             placement = list(range(circuit.num_qudits))
 
         if any(
-            (placement[e[0]], placement[e[1]]) not in self.coupling_graph
-            for e in circuit.coupling_graph
+            (placement[q0], placement[q1]) not in self.coupling_graph
+            for op in circuit
+            if not isinstance(op.gate, placeholders)
+            for q0, q1 in it.combinations(op.location, 2)
         ):
             return False
 
